@@ -162,3 +162,92 @@ class OutInteractionsIter(_ListingIter):
         Y = gh['$ypair'].z
         ctx.oblige('C02.listing.each_out_interaction_once_oriented', Y[c.qa][c.qb] == b2i(self.R(c, c.qa, c.qb)), tags=T)
         self.check_unchanged(ctx, c)
+
+
+class InInteractionsIter(_ListingIter):
+    """DynDiGraph.in_interactions_iter: every stored edge once, oriented (source, target), found through the predecessor rows"""
+    fname = 'in_interactions_iter'
+
+    def setup(self, ctx, variant):
+        c = _ListingIter.setup(self, ctx, variant)
+        g = c.g
+
+        def on_focus(new_pairs):
+            spec.inv_assume(ctx, g, spec.View('pre'), [p[0] for p in new_pairs], new_pairs)
+        ctx.on_focus = on_focus
+        return c
+
+    def loop_specs(self):
+        def outer(L):
+            c = L.ctx.lst
+            Y = L.env['$ypair'].z
+            a, b = z3.Consts('a?io b?io', Node)
+            return [('each_in_interaction_of_a_visited_node_once', FA([a, b], Y[a][b] == b2i(z3.And(self.R(c, a, b), L.vis(b))), [Y[a][b]]))]
+
+        def inner(L):
+            c = L.ctx.lst
+            Y, Y0 = L.env['$ypair'].z, L.env0['$ypair'].z
+            n = L.otv(0).z
+            a, b = z3.Consts('a?ii b?ii', Node)
+            return [('yields_of_this_row_so_far', FA([a, b], Y[a][b] == Y0[a][b] + b2i(z3.And(b == n, L.vis(a), self.R(c, a, n))), [Y[a][b]]))]
+        return {'bag/2': LoopSpec(outer, modifies={}, tags=('C02', 'C06')), 'bag/1': LoopSpec(inner, modifies={}, tags=('C02', 'C06'))}
+
+    def finish(self, ctx, c, outcome):
+        T = ('C02', 'C06')
+        if outcome[0] == 'raise':
+            return self.forbid(ctx, 'C02.listing.no_exception.%s' % outcome[1], tags=T, note=outcome[2])
+        gh = getattr(outcome[1], 'ghost', None)
+        if gh is None or '$ypair' not in gh:
+            return self.forbid(ctx, 'C02.listing.yields_interaction_tuples', tags=T)
+        Y = gh['$ypair'].z
+        ctx.oblige('C02.listing.each_in_interaction_once_oriented', Y[c.qa][c.qb] == b2i(self.R(c, c.qa, c.qb)), tags=T)
+        self.check_unchanged(ctx, c)
+
+
+# ---- bounded search on the real code (triage) ---------------------------------------------------------------------------------
+
+def run_case(cls, fname, removal, history, t):
+    """the real listing on the graph built by `history` against the union of the added spans; {clause: detail}"""
+    from bounded.core import run_history
+    history = [tuple(tuple(y) if isinstance(y, list) else y for y in c) for c in history]
+    G, M, outs = run_history(cls, removal, history, probing=False)
+    try:
+        got = list(getattr(G, fname)(None, t))
+    except Exception as ex:
+        return {'C02.listing.no_exception.%s' % type(ex).__name__: repr(ex)}
+    want = [k for k in M.keys() if (t is None or M.present(k[0], k[1], t))]
+    if cls == 'DynGraph':
+        norm = lambda a, b: tuple(sorted((a, b), key=repr))
+        g2 = sorted((norm(x[0], x[1]) for x in got), key=repr)
+        w2 = sorted((norm(a, b) for (a, b) in want), key=repr)
+        name = 'C02.listing.each_interaction_once_in_one_orientation'
+    else:
+        g2 = sorted(((x[0], x[1]) for x in got), key=repr)
+        w2 = sorted(want, key=repr)
+        name = 'C02.listing.each_%s_interaction_once_oriented' % fname.split('_')[0]
+    if g2 != w2:
+        return {name: '%s(None, %r) lists %r, present: %r' % (fname, t, g2, w2)}
+    for x in got:
+        third = x[2]
+        if t is not None and third != {'t': [t]}:
+            return {'C02.listing.third_component_is_the_queried_instant': repr(x)}
+    return {}
+
+
+def _search_real(self, engine):
+    import itertools
+    from bounded.core import histories, run_history, qs_of, jsonable
+    for removal in (True,):
+        for cls, rem, h in itertools.islice(histories('quick', 1, classes=(self.cls,), modes=(removal,)), 600):
+            G, M, outs = run_history(cls, rem, h, probing=False)
+            if any(o[0] != o[1] for o in outs) or not M.keys():
+                continue
+            for t in [None] + list(qs_of(M)):
+                v = run_case(cls, self.fname, rem, h, t)
+                if v:
+                    return {'violated': v, 'call': '%s.%s(None, %r) after %r' % (cls, self.fname, t, h),
+                            'replayer': {'module': 'contracts.iters', 'function': 'run_case', 'args': [cls, self.fname, rem, jsonable(h), t]}}
+    return None
+
+
+_ListingIter.search_real = _search_real
